@@ -74,7 +74,8 @@ class LiquidError(Exception):
             ):
                 length += 2
 
-            pointer = (" " * col) + ("^" * max(length, 1))
+            # A lexer error's value can span lines. Point at its first line.
+            pointer = (" " * col) + ("^" * max(min(length, len(current) - col), 1))
         else:
             pointer = (" " * (col - 1)) + "^"
 
